@@ -169,3 +169,38 @@ def coq_line_case(c, caps, reuse, strip, delays, w, lane, s0, s1, s2, extra):
 def line_cases_file(cases):
     body = ';\n '.join(cases)
     return LINE_HEADER + f'Definition results : list (list bool) := [\n {body}].\nEval vm_compute in (wline_failing results).\n'
+
+
+# ---- C06: fork stripping (Model/WaveStripModel.v wexec_alias) and delay-dataset selection (wexec_sel) at line level --------------
+STRIP_HEADER = HEADER.replace('Model.WaveSimModel Model.Corr', 'Model.WaveSimModel Model.Corr Model.WaveOps Model.WaveAcc Model.WaveStripModel')
+STRIP_CHECKS = ['SimOps.build succeeds in the model', 'line-level result = every tracked region of the implementation\'s memory up to its terminator',
+                'op list / stems are the ones the theorems speak about (build_ops c true, build_stems)']
+
+
+def _stim_literals(c, caps, lane, s0, s1, s2, extra):
+    n = len(c.lines) + 3
+    capl = [caps] * n if isinstance(caps, int) else list(caps)
+    svals = cg.coq_list(range(len(s0)), lambda p: f'({b(s0[p, lane] != 0)}, {coq_time(tval(s1[p, lane]))}, {b(s2[p, lane] != 0)})')
+    ex = cg.coq_list([(p, wf) for (p, l), wf in sorted(extra.items()) if l == lane],
+                     lambda e: f'({e[0]}, {cg.coq_list(e[1], coq_time)})')
+    return cg.coq_list(capl, cg.coq_N), svals, ex
+
+
+def coq_strip_case(c, caps, delays, w, lane, s0, s1, s2, extra):
+    """wstrip_case: wexec_alias through the stems, compared with the memory WaveSim(strip_forks=True, c_reuse=False) left."""
+    capl, svals, ex = _stim_literals(c, caps, lane, s0, s1, s2, extra)
+    mem = [tval(x) for x in np.asarray(w.c)[:, lane]]
+    return (f'wstrip_case {cg.coq_netlist(c)} {capl} {cg.coq_list(list(delays), coq_dtab)} {svals} {ex} {cg.coq_list(mem, coq_time)}')
+
+
+def coq_sel_case(c, caps, dsets, mode, seed, ctl0, w, lane, s0, s1, s2, extra):
+    """wsel_case: wexec_sel with the dataset table, compared with the memory WaveSim (options off) left in that lane."""
+    capl, svals, ex = _stim_literals(c, caps, lane, s0, s1, s2, extra)
+    mem = [tval(x) for x in np.asarray(w.c)[:, lane]]
+    D = cg.coq_list([list(d) for d in dsets], lambda d: cg.coq_list(d, coq_dtab))
+    return (f'wsel_case {cg.coq_netlist(c)} {capl} {D} {int(mode)} {int(seed)} {int(ctl0)} {svals} {ex} {cg.coq_list(mem, coq_time)}')
+
+
+def strip_cases_file(cases):
+    body = ';\n '.join(cases)
+    return STRIP_HEADER + f'Definition results : list (list bool) := [\n {body}].\nEval vm_compute in (wline_failing results).\n'
